@@ -12,3 +12,7 @@ def groups_for(pid, tier):
 
 def run_group(group, pid, tier):
     raise Undecided("no kani group")
+
+
+def all_groups():
+    return {}
